@@ -6,6 +6,8 @@ import (
 	"runtime"
 	"strings"
 	"sync/atomic"
+	"unicode"
+	"unicode/utf8"
 
 	"github.com/CrowdStrike/csproto/prototest"
 
@@ -168,7 +170,9 @@ func hexGenerator(r *ev.Run, perByteCase bool) {
 
 // digits of every case, a non-digit letter, the comment character, the white-space characters (incl. vertical tab), and
 // control characters that are NOT white space (NUL, ESC): anything outside digits / white space / comments is rejected
-var acceptAlphabet = []byte{'0', 'a', 'F', 'g', ';', ' ', '\t', '\n', 'x', '\v', 0x00, 0x1b}
+// the bytes C2, A0, 85 make the two-byte white-space runes U+00A0 and U+0085 (white space like any other) as well as
+// every way of writing invalid UTF-8 with them (never white space, never hex)
+var acceptAlphabet = []byte{'0', 'a', 'F', 'g', ';', ' ', '\t', '\n', 'x', '\v', 0x00, 0x1b, 0xC2, 0xA0, 0x85}
 
 type hexVerdict int
 
@@ -197,7 +201,21 @@ func refHex(s []byte, digits []byte) (v hexVerdict, out []byte, reason string) {
 	inComment := false
 	lineDigits := 0
 	oddLine := false
-	for _, c := range s {
+	for i := 0; i < len(s); {
+		c := s[i]
+		if c >= utf8.RuneSelf && !inComment {
+			// a multi-byte rune outside a comment: white space if Unicode says so, otherwise (incl. invalid UTF-8) not hex
+			r, size := utf8.DecodeRune(s[i:])
+			i += size
+			if r == utf8.RuneError && size == 1 {
+				return mustReject, nil, "invalid-char"
+			}
+			if unicode.IsSpace(r) {
+				continue
+			}
+			return mustReject, nil, "invalid-char"
+		}
+		i++
 		if c == '\n' {
 			if lineDigits%2 == 1 {
 				oddLine = true
